@@ -229,6 +229,8 @@ def cmd_replay(argv):
         "expected_digest": replay.get("trace_digest"),
     }
     print("REPLAY-RESULT " + json.dumps(out, sort_keys=True))
+    for kh in getattr(res, "known_hits", []):
+        print("KNOWN-HIT %s|%s" % (kh["invariant"], kh["site"]))
     if "--trace" in argv:
         for rec in res.trace:
             print(json.dumps(rec, sort_keys=True))
